@@ -2112,6 +2112,8 @@ package goatlang
 //@   axioms TOKARR
 //@   requires wfC(c) && tok != nil && len(c.Returns) >= 1 && tokArr(arr(tok.Tokens)) && (forall j int :: 0 <= j && j < len(tok.Tokens) ==> tok.Tokens[j] != nil)
 //@   ensures#wf wfC(c) && keepsC(c)
+//@   ensures#tailcall old(len(tok.Tokens) == 1 && tok.Tokens[0].Symbol == "call") ==> len(res) >= 2 && res[len(res)-1].Code == codeReturn && res[len(res)-2].B == res[len(res)-1].A && int(res[len(res)-1].A) == c.Returns[len(c.Returns)-1]
+//@   ensures#plain !old(len(tok.Tokens) == 1 && tok.Tokens[0].Symbol == "call") ==> len(res) >= 1 && res[len(res)-1].Code == codeReturn && int(res[len(res)-1].A) == old(len(tok.Tokens))
 
 // ---------------------------------------------------------------------------------------------
 // C13: strings are Go strings: every script operation is the Go primitive on the same operands
